@@ -11,5 +11,5 @@ def main(tier='quick', seed=0):
         'priority_queue<pair<float,unsigned>> of one token holds (tag(t,c), c) for all c < num_tags (filled at lines 323-324); the i-th pop is the i-th best pair',
         'leaf items are created only in the leaf loop: every push of the search loop has a non-null left pointer (obligation push-site / pointers)',
     ]
-    extra = dict(functions_under_contract=['depccg/parsing.h::parse_sentence (leaf loop 334-359: pruning_size bound, beta threshold, break soundness; search loop: no leaf construction)'], cxx=info)
+    extra = dict(functions_under_contract=['depccg/parsing.h::parse_sentence (leaf loop 334-359: pruning_size bound, beta threshold, break soundness; search loop: no leaf construction)'] + cxx.HELPER_FUNCTIONS['C16'], cxx=info)
     return c12.finish_with(PROP, tier, seed, t0, records, errors, extra, assumptions, ['search_real.py'])
